@@ -216,10 +216,15 @@ impl C07 {
         let ls = gen_land_general(rng, false);
         let mut cfg = gen_cfg(rng, tier, false);
         // temperature must be known by construction: constant (cooling factor 1) or a single loop
-        if rng.chance(0.7) {
-            cfg.kt_ratio = Some(0.0);
-        } else {
-            cfg.inner = cfg.steps + rng.below(3);
+        match rng.below(10) {
+            0..=5 => cfg.kt_ratio = Some(0.0),
+            // a ratio of 1 or more: kt_start during the first inner loop, exactly zero afterwards
+            6 | 7 => {
+                cfg.kt_ratio = Some(*rng.pick(&[1.0, 1.5, 3.0]));
+                let loops = *rng.pick(&[2u64, 3, 4, 7]);
+                cfg.inner = (cfg.steps / loops).max(1);
+            }
+            _ => cfg.inner = cfg.steps + rng.below(3),
         }
         cap_for_n(&ps, &mut cfg);
         let pre = gen_prelude(rng);
@@ -228,11 +233,13 @@ impl C07 {
 
     fn exec_det(&self, j: &J) -> Result<RunOut, String> {
         let (ps, ls, cfg) = unscen(j)?;
+        let two_phase = cfg.kt_ratio.map(|r| r >= 1.0).unwrap_or(false);
         let const_kt = cfg.kt_ratio == Some(0.0) || cfg.loops() <= 1;
-        if !const_kt {
-            return Err("C07 clause scenario without a known constant temperature".into());
+        if !const_kt && !two_phase {
+            return Err("C07 clause scenario without a temperature known by construction".into());
         }
         let kt = cfg.kt_start;
+        let inner_eff = cfg.inner_eff().max(1) as usize;
         let had_prelude = run_prelude(j, &ps)?;
         let run = run_e1(&ps, &ls, &cfg)?;
         let tr = run.trace();
@@ -240,10 +247,17 @@ impl C07 {
         if run.panic.is_some() {
             return Ok(out);
         }
+        // leading bookkeeping evaluations (observations identical to the input) are not proposals
+        let mut lead = 0usize;
+        while lead < run.obs.len() && run.obs[lead].diff.is_empty() {
+            lead += 1;
+        }
         let res = tr.feasible(run.x0_score, |e: &EdgeCtx| {
             if e.null {
                 return Ok(());
             }
+            // temperature of the inner loop this proposal belongs to
+            let kt = if two_phase && !const_kt && e.k >= lead && (e.k - lead) / inner_eff >= 1 { 0.0 } else { kt };
             match (e.prop_score, e.parent_score) {
                 (None, _) if e.accepted => Err("a proposal without a defined score (None) was accepted".to_string()),
                 (Some(p), Some(c)) => {
@@ -311,7 +325,7 @@ impl Check for C07 {
         match j.get("mode").and_then(|m| m.as_str()) {
             Some("frequency") => vec![],
             _ => shrink_e1(j).into_iter().map(|s| s.set("mode", J::str("clauses"))).filter(|s| {
-                unscen(s).map(|(_, _, c)| c.kt_ratio == Some(0.0) || c.loops() <= 1).unwrap_or(false)
+                unscen(s).map(|(_, _, c)| c.kt_ratio == Some(0.0) || c.loops() <= 1 || c.kt_ratio.map(|r| r >= 1.0).unwrap_or(false)).unwrap_or(false)
             }).collect(),
         }
     }
@@ -353,7 +367,9 @@ impl C18 {
         let loops = if short { *rng.pick(&[30u64, 60, 100]) } else { *rng.pick(&[1u64, 2, 3, 5, 10, 20]) };
         let inner = if short { *rng.pick(&[1u64, 1, 2, 3]) } else { *rng.pick(&[25u64, 50, 100]) };
         let steps = loops * inner + if rng.chance(0.3) { rng.below(inner) } else { 0 };
-        let kt_start = *rng.pick(&[0.1, 0.1, 1.0, 0.01, 0.0]);
+        // (1e-14: the schedule then crosses the machine epsilon, where a temperature is still a
+        // temperature)
+        let kt_start = *rng.pick(&[0.1, 0.1, 1.0, 0.01, 0.0, 1e-14]);
         // which schedule request
         let (kt_finish, kt_ratio): (Option<f64>, Option<f64>) = match (i % 4, kt_start == 0.0) {
             (_, true) => *rng.pick(&[(Some(1e-3), None), (None, Some(0.3)), (None, None), (Some(0.0), None)]),
@@ -417,8 +433,8 @@ impl Check for C18 {
     }
     fn runs(&self, tier: Tier) -> u64 {
         match tier {
-            Tier::Quick => 48,
-            Tier::Thorough => 320,
+            Tier::Quick => 72,
+            Tier::Thorough => 360,
         }
     }
     fn generate(&self, rng: &mut Rng, tier: Tier, i: u64) -> J {
@@ -686,7 +702,7 @@ pub fn gen_c20_e1(rng: &mut Rng, _tier: Tier) -> J {
         kt_finish,
         kt_ratio,
         max_step: *rng.pick(&[0.0, 1e-3, 0.01, 0.1, 1.0]),
-        convergence: *rng.pick(&[None, Some(0.0), Some(1e-9), Some(1e-3), Some(1e9)]),
+        convergence: *rng.pick(&[None, Some(0.0), Some(1e-9), Some(1e-3), Some(1e9), Some(-1e-9), Some(-0.5)]),
         seed: rng.below(1 << 32),
         order: if rng.chance(0.5) { 1 + rng.below(1 << 20) } else { 0 },
         prior: if rng.chance(0.25) { Some((*rng.pick(&[1u64, 10, 100_000]), *rng.pick(&[1u64, 7, 100_000]))) } else { None },
